@@ -13,7 +13,8 @@ def _run_native(bin_name, args, features=None, timeout=900):
     shutil.rmtree(REPLAY_CRATE, ignore_errors=True)
     shutil.copytree(REPLAY_SRC, REPLAY_CRATE, ignore=shutil.ignore_patterns("target", "Cargo.lock"))
     tp = os.path.join(REPLAY_CRATE, "Cargo.toml")
-    open(tp, "w").write(open(tp).read().replace('path = "/repo/sylvia"', 'path = "%s/sylvia"' % REPO))
+    toml = open(tp).read().replace('path = "/repo/sylvia"', 'path = "%s/sylvia"' % REPO)
+    open(tp, "w").write(toml)
     shutil.copyfile(os.path.join(REPO, "Cargo.lock"), os.path.join(REPLAY_CRATE, "Cargo.lock"))
     cmd = ["cargo", "run", "--offline", "--quiet", "--release", "--bin", bin_name]
     if features:
